@@ -66,6 +66,8 @@ def generate(seed, run, tier):
             ops.append({'op': 'opt_step', 'which': op['which'], 'lr': op['lr']})
     if crash_pos is not None:
         pos = [crash_pos % (len(ops) + 1)]
+    elif sw.chance(0.05):
+        pos = list(range(len(ops) + 1))         # crash storm: a restart at every op boundary
     else:
         ncr = rf.wchoice([(1, 5), (2, 3), (3, 1)])
         pos = sorted(rf.randint(0, len(ops)) for _ in range(ncr))
